@@ -49,6 +49,9 @@ def plan(prop, tier):
             {"name": "seeded-search", "share": 0.5, "sample_every": 997},
             {"name": "fault-site-enumeration", "share": 0.5, "sample_every": 997, "args": ["--gen", "C14enum"], "seed_offset": 1 << 30},
         ]
+    if prop == "C15":
+        # the one fixed scenario of known finding huge-chunk/iterator-source (known_findings.json)
+        phases.append({"name": "known-finding-probe", "share": 0.0, "count": 1, "sample_every": 1, "jobs": 1, "args": ["--gen", "C15probe"], "seed_offset": 1 << 28})
     if prop == "C15" and tier == "thorough":
         phases.append({"name": "sampled-length-2^20+3", "share": 0.0, "count": 2, "sample_every": 1, "args": ["--gen", "C15huge"], "seed_offset": 1 << 29})
     if prop in ("C13", "C14"):
